@@ -46,6 +46,7 @@ type Contract struct {
 	Probes      []*Clause
 	Implements  string // key of an interface contract this function must refine
 	Reveal      []string
+	Use         []string // lemmas (proved separately, with definitions revealed) assumed in this function's proof
 	File        string
 	Line        int
 	PkgPath     string
@@ -99,7 +100,7 @@ func NewContractSet() *ContractSet {
 
 var labelRe = regexp.MustCompile(`^(\{[A-Z0-9, ]+\}\s*)?([A-Za-z][A-Za-z0-9_.\-]*):(\s|$)`)
 var propsRe = regexp.MustCompile(`^\{([A-Z0-9, ]+)\}\s*`)
-var keywordRe = regexp.MustCompile(`^(opaque|reveal|import|ghost|uninterp|spec|func|iface|requires|guard|ensures|modifies|loop|pure|trusted|noinline|safe|fresh|lemma|params|results|props|probe|implements)\b`)
+var keywordRe = regexp.MustCompile(`^(use|opaque|reveal|import|ghost|uninterp|spec|func|iface|requires|guard|ensures|modifies|loop|pure|trusted|noinline|safe|fresh|lemma|params|results|props|probe|implements)\b`)
 
 // LoadFile parses one contract file. pkgPath is the import path of the package the file sits in
 // ("" for library spec files, where names must be qualified). trusted marks every contract assumed.
@@ -172,6 +173,11 @@ func (cs *ContractSet) LoadFile(file, pkgPath string, trusted bool) error {
 			sf.PkgPath = pkgPath
 			sf.File = file
 			cs.Specs[sf.Name] = sf
+		case "use":
+			if cur == nil {
+				return fail(it, "use outside func")
+			}
+			cur.Use = append(cur.Use, strings.Fields(strings.ReplaceAll(rest, ",", " "))...)
 		case "reveal":
 			if cur == nil {
 				return fail(it, "reveal outside func")
